@@ -6,6 +6,92 @@ import solvegen
 from props import solve_common
 
 
+BHEADER = """From Coq Require Import ZArith List Bool.
+From PV Require Import Rand.Swizzle Rand.Bounds.
+Import ListNotations.
+Open Scope Z_scope.
+"""
+
+
+def bounds_stream(ctx):
+    """fields constrained only against constants (f < c, <=, >, >=, in rangelist): the inferred domain the library recorded is
+    compared, as a set of values, with Rand/Bounds.v's `infer`, and every value satisfying all constraints must lie in it"""
+    from core import clist, cz, cpair
+    rnd = random.Random("C14-bounds-%d" % ctx.seed)
+    n = 60 if ctx.quick() else 1500
+    cases = []
+    for k in range(n):
+        r = random.Random(rnd.random())
+        fields, stmts, cons = [], [], {}
+        for i in range(r.randint(1, 3)):
+            w, sg = r.choice([2, 3, 4, 5, 6]), r.random() < 0.4
+            name = "f%d" % i
+            fields.append({"name": name, "kind": "scalar", "w": w, "sg": sg, "rand": True})
+            lo, hi = solvegen.type_range(w, sg)
+            ks = []
+            for _ in range(r.randint(0, 4)):
+                q = r.random()
+                # (an unsigned field is only compared with non-negative constants: a mixed signed / unsigned comparison is not
+                # propagated by the library)
+                c = r.randint(lo - (2 if sg else 0), hi + 2)
+                if q < 0.6:
+                    op = r.choice(["Lt", "Le", "Gt", "Ge"])
+                    stmts.append(["expr", ["bin", op, ["f", [name]], ["lit", c]]])
+                    ks.append({"Lt": "(CMax %s)" % cz(c - 1), "Le": "(CMax %s)" % cz(c), "Gt": "(CMin %s)" % cz(c + 1), "Ge": "(CMin %s)" % cz(c)}[op])
+                else:
+                    items, lits = [], []
+                    for _ in range(r.randint(1, 4)):
+                        a = r.randint(lo if sg else 0, hi + 1)
+                        if r.random() < 0.5:
+                            b = a + r.randint(0, 3)
+                            items.append([["lit", a], ["lit", b]])
+                            lits.append((a, b))
+                        else:
+                            items.append([["lit", a]])
+                            lits.append((a, a))
+                    stmts.append(["expr", ["in", ["f", [name]], items]])
+                    ks.append("(CIn %s)" % clist([cpair(cz(a), cz(b)) for a, b in lits]))
+            cons[name] = (w, sg, ks)
+        r.shuffle(stmts)
+        # the order of the constraints of one field must follow the statements: rebuild per field in statement order
+        cls = {"name": "K0", "fields": fields, "blocks": [{"name": "c0", "stmts": stmts}], "pre_randomize": [], "post_randomize": []}
+        cases.append(({"enums": {}, "classes": [cls], "root_cls": "K0",
+                       "ops": [{"op": "new", "var": "o", "cls": "K0"}, {"op": "randomize", "var": "o", "inline": None}]}, cons))
+    obs = core.run_impl_parallel(ctx, "solve_impl.py", [c for c, _ in cases])
+    items, meta = [], []
+    for (sc, cons), o in zip(cases, obs):
+        if o.get("_crash") or "crash" in o:
+            ctx.tie_broken.append("bounds stream: worker crashed: %s" % str(o)[:300])
+            continue
+        res = o["ops"][1]
+        if str(res["outcome"]).startswith("exc"):
+            core.add_violation(ctx, "a call over constant comparisons raised %s" % res["outcome"], {"scenario": sc["classes"], "observed": res.get("err")})
+            continue
+        for i, f in enumerate(sc["classes"][0]["fields"]):
+            w, sg, ks = cons[f["name"]]
+            rec = res["domains"].get(str(i))
+            if rec is None:
+                continue
+            items.append("bounds_check %s %s %s %s" % ("true" if sg else "false", cz(w), clist(ks), clist([cpair(cz(a), cz(b)) for a, b in rec])))
+            meta.append((sc, f["name"], ks, rec))
+    out = core.coq_eval(ctx, "c14_bounds", BHEADER + "Definition codes : list Z := %s.\nEval vm_compute in codes.\n" % clist(items))
+    zs = core.parse_z_list(out) if out else None
+    if zs is None or len(zs) != len(items):
+        ctx.tie_broken.append("Coq evaluation of the bounds stream failed")
+        zs = []
+    for code, (sc, name, ks, rec) in zip(zs, meta):
+        if code & 2:
+            core.add_violation(ctx, "field %s: a value satisfying all of %s lies outside the inferred domain %s" % (name, ks, rec),
+                               {"scenario": sc["classes"], "field": name, "recorded_domain": rec, "model_agrees_with_impl": not (code & 1)})
+        elif code & 1:
+            ctx.tie_broken.append("bounds model (Rand/Bounds.v infer) != recorded domain for %s: constraints %s, recorded %s" % (name, ks, rec))
+    return {"evaluations": len(items), "mismatches": sum(1 for z in zs if z & 1),
+            "rule": "1-3 random scalar fields (2-6 bits, signed or not) with 0-4 statements each: comparisons with constants at and beyond "
+                    "the type's range, membership in 1-4 constant values / ranges (overlapping, adjacent, unsorted, partly outside the type); "
+                    "per field the recorded inferred domain is compared as a set of values with the model and with the constraints' "
+                    "solutions over every value of the type"}
+
+
 def run(ctx):
     core.check_prop_file(ctx, "Prop_C14.v")
     known = {f["sig"]: f for f in core.known_for("C14")}
@@ -57,8 +143,10 @@ def run(ctx):
             judge(more, res2, cr2)
             if ctx.violations:
                 break
+    bstats = bounds_stream(ctx)
     ctx.coverage.update({
-        "evaluations": stats["evaluations"],
+        "bounds_model_stream": bstats,
+        "evaluations": stats["evaluations"] + bstats["evaluations"],
         "distinct_nontrivial": len({repr(s["classes"]) for s in scs}),
         "rule": "the C01 / C03 generators (single objects and object trees, <= 11 random bits); per call the value ranges the "
                 "library inferred for every field (bound map handed to Randomizer.randomize) are recorded and every solution of the "
